@@ -14,64 +14,29 @@ use crate::types::{Command, CommandLine, CommandResult, Redirection};
 ///      ("2", ">", "&1"),
 ///      ("1", ">", "foo.txt"),
 ///  ])
+/// Redirections are applied left to right. `None` means "still the shell's
+/// own descriptor" (1 resp. 2); `2>&1` copies the current stdout target,
+/// `1>&2` the current stderr target. Every descriptor stored here is owned:
+/// it is closed when it gets replaced, and by the caller at the end.
 fn _get_std_fds(redirects: &[Redirection]) -> (Option<RawFd>, Option<RawFd>) {
-    if redirects.is_empty() {
-        return (None, None);
-    }
+    let mut fd_out: Option<RawFd> = None;
+    let mut fd_err: Option<RawFd> = None;
 
-    let mut fd_out = None;
-    let mut fd_err = None;
+    for item in redirects {
+        let to_out = item.0 == "1";
+        let candidate = if to_out && item.2 == "&2" {
+            Some(unsafe { libc::dup(fd_err.unwrap_or(2)) })
+        } else if !to_out && item.2 == "&1" {
+            Some(unsafe { libc::dup(fd_out.unwrap_or(1)) })
+        } else {
+            tools::create_raw_fd_from_file(&item.2, item.1 == ">>").ok()
+        };
 
-    for i in 0..redirects.len() {
-        let item = &redirects[i];
-        if item.0 == "1" {
-            // 1>&2
-            let mut _fd_candidate = None;
-
-            if item.2 == "&2" {
-                let (_fd_out, _fd_err) = _get_std_fds(&redirects[i+1..]);
-                if let Some(fd) = _fd_err {
-                    _fd_candidate = Some(fd);
-                } else {
-                    _fd_candidate = unsafe { Some(libc::dup(2)) };
-                }
-            } else {  // 1> foo.log
-                let append = item.1 == ">>";
-                if let Ok(fd) = tools::create_raw_fd_from_file(&item.2, append) {
-                    _fd_candidate = Some(fd);
-                }
-            }
-
-            // for command like this: `alias > a.txt > b.txt > c.txt`,
-            // we need to return the last one, but close the previous two.
-            if let Some(fd) = fd_out {
-                unsafe { libc::close(fd); }
-            }
-
-            fd_out = _fd_candidate;
+        let slot = if to_out { &mut fd_out } else { &mut fd_err };
+        if let Some(fd) = slot.take() {
+            unsafe { libc::close(fd); }
         }
-
-        if item.0 == "2" {
-            // 2>&1
-            let mut _fd_candidate = None;
-
-            if item.2 == "&1" {
-                if let Some(fd) = fd_out {
-                    _fd_candidate = unsafe { Some(libc::dup(fd)) };
-                }
-            } else {  // 2>foo.log
-                let append = item.1 == ">>";
-                if let Ok(fd) = tools::create_raw_fd_from_file(&item.2, append) {
-                    _fd_candidate = Some(fd);
-                }
-            }
-
-            if let Some(fd) = fd_err {
-                unsafe { libc::close(fd); }
-            }
-
-            fd_err = _fd_candidate;
-        }
+        *slot = candidate;
     }
 
     (fd_out, fd_err)
